@@ -153,7 +153,7 @@ Cases == {p \in Programs : p.fam \in Fams}
 ParamForms == {"clop", "named", "namedg", "cloarg", "chanclo"}     \* forms with a parameter k
 OkForm(p, form, site) ==
     /\ (site = "loop" => form \in ParamForms /\ p.n >= 2)
-    /\ (p.fam = "pipe" => form \in {"clop", "named"})
+    /\ (p.fam = "pipe" => form \in {"clop", "named"} /\ site # "loop")
     /\ (p.fam = "handoff" => form # "named" /\ site # "loop")
 Variants(p) == {fs \in Forms \X Sites : OkForm(p, fs[1], fs[2])}
 
@@ -228,12 +228,12 @@ Step(i) ==
                /\ gs' = Adv(i, [g EXCEPT !.tmp = X]) /\ UNCHANGED <<X, S, mu, wg, chs, out, fault>>
           [] o.op = "wr" ->
                /\ X' = g.tmp + Val(g, o.x)
-               /\ gs' = Adv(i, g) /\ UNCHANGED <<S, mu, wg, chs, out, fault>>
+               /\ gs' = Adv(i, [g EXCEPT !.tmp = 0]) /\ UNCHANGED <<S, mu, wg, chs, out, fault>>
           [] o.op = "srd" ->
                /\ gs' = Adv(i, [g EXCEPT !.tmp = S]) /\ UNCHANGED <<X, S, mu, wg, chs, out, fault>>
           [] o.op = "swr" ->
                /\ S' = g.tmp * 10 + o.a
-               /\ gs' = Adv(i, g) /\ UNCHANGED <<X, mu, wg, chs, out, fault>>
+               /\ gs' = Adv(i, [g EXCEPT !.tmp = 0]) /\ UNCHANGED <<X, mu, wg, chs, out, fault>>
           [] o.op = "send" ->
                LET c == ChanOf(g, o.ch) IN
                IF chs[c].closed
